@@ -65,7 +65,11 @@ func genPersistWorkload(r *rand.Rand, o persistOpts) []persistStep {
 			continue
 		}
 		if o.mode == "rewrite" && nrw < 2 && r.Intn(4) == 0 {
-			steps = append(steps, persistStep{Step: Step{Tick: t}, Special: "rewrite"})
+			ps := persistStep{Step: Step{Tick: t}, Special: "rewrite"}
+			if o.inter && r.Intn(2) == 0 {
+				ps.Inter = genPersistWrite(r, o, now)
+			}
+			steps = append(steps, ps)
 			nrw++
 			continue
 		}
